@@ -80,7 +80,7 @@ impl Case {
 pub fn run_generator(c: &Case) -> Result<String, String> {
     let scratch = cli::Scratch::new();
     let csv: String = c.edges.iter().map(|(a, b)| format!("{},{}\n", a, b)).collect();
-    let input = scratch.file("graph.csv", csv.as_bytes());
+    let input = scratch.file(&cli::Scratch::awkward("graph.csv"), csv.as_bytes());
     let mut args = vec![input.to_string_lossy().into_owned()];
     if c.undirected {
         args.push("-u".into());
@@ -94,7 +94,7 @@ pub fn run_generator(c: &Case) -> Result<String, String> {
     }
     let text = out.out();
     // the stdin / output-file path must give the same text
-    let outp = scratch.stale("out.txt");
+    let outp = scratch.stale(&cli::Scratch::awkward("out.txt"));
     let mut args2 = vec![input.to_string_lossy().into_owned(), outp.to_string_lossy().into_owned()];
     if c.undirected {
         args2.push("--undirected".into());
